@@ -55,6 +55,23 @@ def rng_state(rng):
             int(st['has_uint32']), int(st['uinteger']))
 
 
+def canonical_points(points):
+    """Posterior points as one float array whatever the container (array,
+    dict of arrays, array of dicts): the container depends on the prior
+    function and on scalar/vectorised mode, the numbers must not."""
+    if isinstance(points, dict):
+        keys = sorted(points)
+        return [keys, np.stack([np.asarray(points[k], dtype=np.float64)
+                                for k in keys], axis=-1)]
+    points = np.asarray(points)
+    if points.dtype == object and points.size and isinstance(
+            points.ravel()[0], dict):
+        keys = sorted(points.ravel()[0])
+        return [keys, np.array([[np.float64(d[k]) for k in keys]
+                                for d in points.ravel()], dtype=np.float64)]
+    return points
+
+
 def result_digest(sampler, with_rng=True):
     """Digest of everything C05/C11 call 'the result'."""
     out = {}
@@ -67,7 +84,9 @@ def result_digest(sampler, with_rng=True):
             post = sampler.posterior(return_blobs=True)
         else:
             post = sampler.posterior()
-        out['posterior'] = [p for p in post]
+        post = list(post)
+        post[0] = canonical_points(post[0])
+        out['posterior'] = post
     except Exception as e:       # nothing stored yet, etc.
         out['posterior'] = 'EXC:' + type(e).__name__
     if with_rng:
